@@ -188,6 +188,10 @@ Fixpoint dict_get (d : list (Z * bytes)) (kv : Z) : option bytes :=
 Definition secret_key (s : secret) (kv : Z) : option bytes :=
   match s with SStr k => Some k | SDict d => dict_get d kv end.
 
+(* bytes.isdigit(): non-empty and ASCII digits only *)
+Definition is_digits (l : bytes) : bool :=
+  match l with [] => false | _ => forallb is_digit l end.
+
 Definition starts_with_zero (l : bytes) : bool :=
   match l with c :: _ => c =? 48 | [] => false end.
 
@@ -263,6 +267,7 @@ Section WithMac.
     match split 124 x with
     | [p0; p1; sg] =>
         if negb (bytes_eqb sg (mac1 k (name ++ p0 ++ p1))) then None
+        else if negb (is_digits p1) then None              (* bf2e153 *)
         else match py_int p1 with
              | None => None
              | Some t =>
